@@ -147,6 +147,278 @@ def mutate_xml(rng, xml):
     return xml, "well-formed"
 
 
+# ---------------------------------------------------------------------------
+# resource-scaling inputs (harness/c10_scale.cc): reduced stack, CPU watchdog
+# ---------------------------------------------------------------------------
+
+STACK_KB = 256          # stack of the reading thread (the default is 8 MiB: recursion per item shows 32x earlier)
+CPU_S = 30              # CPU-time watchdog of one reading (the slowest reading of the unchanged tree takes < 1 s)
+# bytes: high-water(4n) - high-water(n).  A frame per item is >= 32 bytes x 3n items (>= 144 kB at n = 1500); the
+# sort inside symbol_set::insert adds ~5 kB per factor 4 (depth O(log n)), everything else is flat.
+STACK_GROWTH_TOL = 16384
+
+
+def chunk(b, n=1):
+    return "%s*%d" % (b.hex(), n) if n != 1 else b.hex()
+
+
+def recipe(*parts):
+    """parts: bytes or (bytes, count)"""
+    items = []
+    for p in parts:
+        if isinstance(p, tuple):
+            if p[1] > 0 and p[0]:
+                items.append(chunk(p[0], p[1]))
+        elif p:
+            items.append(chunk(p))
+    return "+".join(items) or "-"
+
+
+def expand_recipe(r):
+    if r == "-":
+        return b""
+    out = []
+    for it in r.split("+"):
+        h, _, n = it.partition("*")
+        out.append(bytes.fromhex(h) * (int(n) if n else 1))
+    return b"".join(out)
+
+
+XHEAD = b'<?xml version="1.0"?>\n<dataset name="s">\n<header>\n<attributes>\n'
+XMID = b"</attributes>\n</header>\n<body>\n<instances>\n"
+XTAIL = b"</instances>\n</body>\n</dataset>\n"
+XATTR2 = b'<attribute name="a" type="numeric"/>\n<attribute class="yes" name="y" type="numeric"/>\n'
+XINST = b"<instance><value>1</value><value>2</value></instance>\n"
+
+
+def scale_families(rng, n):
+    """Every family at size `n`: (name, request without the recipe, recipe parts, expectation, flags).
+    expectation: None or a dict of `key=value` tokens the `ok` answer must carry / {"class": "exc"};
+    flags: "bounded-depth" = the stack may grow with n up to a fixed bound (XML nesting: tinyxml2 stops
+    at depth 100), so the growth of the high-water mark is not judged."""
+    csv = "scale csv %d %d" % (STACK_KB, CPU_S)
+    row, row2 = b"1,2\n", b"3,4\n"
+    blank = rng.choice([b"\n", b"\r\n", b" \n", b"\t \r\n", b" \t\x0b\x0c\n"])
+    fam = []
+
+    def ok(examples, cols=None, **kw):
+        d = {"examples": examples}
+        if cols is not None:
+            d["cols"] = cols
+        d.update(kw)
+        return d
+
+    # runs of skipped lines: empty, white space only, at the start / in the middle / at the end
+    fam.append(("csv:empty-lines-middle", csv + " 44 0 0 0 0 0", [(row, 3), (b"\n", n), (row2, 2)], ok(5, 2), ""))
+    fam.append(("csv:blank-lines-middle", csv + " 44 0 0 0 0 0", [(row, 3), (blank, n), (row2, 2)], ok(5, 2), ""))
+    fam.append(("csv:blank-lines-start", csv + " 44 0 0 0 0 0", [(blank, n), (row, 3)], ok(3, 2), ""))
+    fam.append(("csv:blank-lines-end", csv + " 44 0 0 0 0 0", [(row, 3), (blank, n)], ok(3, 2), ""))
+    fam.append(("csv:blank-lines-only", csv + " 44 0 0 0 0 0", [(blank, n)], {"class": "exc"}, ""))
+    fam.append(("csv:blank-lines-start-sniffed", csv + " 0 -1 0 0 0 0", [(blank, n), (b"a,b\n", 1), (row, 4)], ok(4, 2), ""))
+    fam.append(("csv:blank-lines-interleaved", csv + " 44 0 0 0 0 0", [(row + blank * 3, n // 4)], ok(n // 4, 2), ""))
+    # runs of records the filter rejects / read_record skips / the output index does not reach
+    fam.append(("csv:filter-rejected-run", csv + " 44 0 0 0 0 p78", [(row, 3), (b"x,1\n", n), (row2, 2)], ok(5, 2), ""))
+    fam.append(("csv:filter-rejects-all", csv + " 44 0 0 0 0 p78", [(b"x,1\n", n)], {"class": "exc"}, ""))
+    fam.append(("csv:filter-rejected-and-blank", csv + " 44 0 0 0 0 p78", [(row, 2), (b"x,1\n\n \n", n // 2), (row2, 2)],
+                ok(4, 2), ""))
+    fam.append(("csv:ragged-run", csv + " 44 0 0 0 0 0", [(row, 3), (b"1,2,3\n", n // 2), (b"7\n", n // 2), (row2, 2)],
+                ok(5, 2), ""))
+    fam.append(("csv:short-of-output-index", csv + " 44 0 0 0 1 0", [(row, 3), (b"7\n", n), (row2, 2)], ok(5, 2), ""))
+    # many records, many columns, long fields and lines
+    fam.append(("csv:many-rows", csv + " 44 0 0 0 0 0", [(row, n)], ok(n, 2), ""))
+    fam.append(("csv:many-classes", csv + " 44 0 0 0 0 0", [(b"a,1\nb,2\n", n // 2)], ok(2 * (n // 2), 2, classes=2), ""))
+    m = max(n // 4, 8)
+    fam.append(("csv:many-columns", csv + " 44 0 0 0 0 0", [(b"1,", m), b"1\n", (b"2,", m), b"2\n"], ok(2, m + 1), ""))
+    fam.append(("csv:many-columns-sniffed", csv + " 0 -1 0 0 0 0", [(b"h,", m), b"h\n", (b"1,", m), b"1\n", (b"2,", m), b"2\n"],
+                None, ""))
+    fam.append(("csv:many-empty-columns", csv + " 44 0 0 0 0 0", [b"1", (b",", m), b"\n", b"2", (b",", m), b"\n"],
+                ok(2, m + 1), ""))
+    fam.append(("csv:long-quoted-field", csv + " 44 0 0 0 0 0", [b'1,"', (b"ab", 20 * n), b'"\n2,"c"\n'], ok(2, 2), ""))
+    fam.append(("csv:long-unquoted-field", csv + " 44 0 0 0 0 0", [b"1,", (b"ab", n), b"\n2,c\n"], ok(2, 2), ""))
+    fam.append(("csv:doubled-quotes-run", csv + " 44 0 0 0 0 0", [b'1,"', (b'""', 2 * n), b'"\n2,"c"\n'], ok(2, 2), ""))
+    fam.append(("csv:unbalanced-quote-long", csv + " 44 0 0 0 0 0", [b'1,"', (b"a,", 2 * n), b"\n2,c\n"], ok(2, 2), ""))
+    fam.append(("csv:quote-chars-run", csv + " 44 0 0 0 0 0", [b"1,", (b'"', 2 * n + 1), b"\n2,c\n"], None, ""))
+    fam.append(("csv:long-blank-field-trim", csv + " 44 0 1 0 0 0", [b"1,", (b" ", 2 * n), b"x\n2,c\n"], ok(2, 2), ""))
+    fam.append(("csv:nul-run", csv + " 44 0 0 0 0 0", [(row, 2), (b"\x00", n), b"\n", (row2, 2)], None, ""))
+    fam.append(("csv:cr-run", csv + " 44 0 0 0 0 0", [(row, 2), (b"\r", n), b"\n", (row2, 2)], ok(4, 2), ""))
+    fam.append(("csv:high-bytes-run", csv + " 44 0 0 0 0 0", [b"1,", (b"\xff\xc3\x80", n), b"\n2,c\n"], ok(2, 2), ""))
+    fam.append(("csv:no-newline-at-all", csv + " 0 -1 0 0 0 0", [(b"ab;", 2 * n)], None, ""))
+    # the parser alone and the sniffer
+    fam.append(("parse:blank-run", "scale parse %d %d 44 0 0 0" % (STACK_KB, CPU_S), [(row, 1), (blank, n), (row2, 1)],
+                {"records": 2}, ""))
+    fam.append(("parse:filtered-run", "scale parse %d %d 44 0 1 e3" % (STACK_KB, CPU_S), [(row, 1), (b"1,2,3\n", n), (row2, 1)],
+                {"records": 2}, ""))
+    fam.append(("sniff:many-lines", "scale sniff %d %d" % (STACK_KB, CPU_S), [(b"a;b;c\n", 1), (b"1;2;3\n", n)],
+                {"delim": 59}, ""))
+    fam.append(("sniff:blank-run", "scale sniff %d %d" % (STACK_KB, CPU_S), [(blank, n), (b"a;b;c\n", 1), (b"1;2;3\n", 30)],
+                {"delim": 59}, ""))
+    fam.append(("sniff:irregular-run", "scale sniff %d %d" % (STACK_KB, CPU_S), [(b"a;b;c\n", 1), (b"1;2\n", n), (b"1;2;3\n", 5)],
+                None, ""))
+    # src_problem(std::istream &) and dataframe::read(path)
+    fam.append(("prob:many-rows", "scale prob %d %d %d" % (STACK_KB, CPU_S, rng.below(2)), [b"y,a\n", (b"1,2\n", n)],
+                ok(n, 2, variables=1), ""))
+    fam.append(("prob:blank-run", "scale prob %d %d 0" % (STACK_KB, CPU_S), [b"y,a\n", (row, 2), (blank, n), (row2, 2)],
+                ok(4, 2, variables=1), ""))
+    mp = min(m, 3000)     # symbol_set::insert is quadratic in the number of symbols (6400 columns: 4 s, 25600: > 60 s)
+    fam.append(("prob:many-columns", "scale prob %d %d %d" % (STACK_KB, CPU_S, rng.below(2)),
+                [(b"1,", mp), b"1\n", (b"2,", mp), b"2\n"], ok(2, mp + 1, variables=mp), ""))
+    fam.append(("file:csv-blank-run", "scale file %d %d %s" % (STACK_KB, CPU_S, rng.choice([b".csv", b".txt", b""]).hex() or "-"),
+                [b"y,a\n", (row, 2), (blank, n), (row2, 2)], ok(4, 2), ""))
+    fam.append(("file:xrff-many-instances", "scale file %d %d %s" % (STACK_KB, CPU_S, rng.choice([b".xrff", b".XML"]).hex()),
+                [XHEAD, XATTR2, XMID, (XINST, n), XTAIL], ok(n, 2), ""))
+    # XRFF
+    xr = "scale xrff %d %d" % (STACK_KB, CPU_S)
+    fam.append(("xrff:many-instances", xr + " 0", [XHEAD, XATTR2, XMID, (XINST, n), XTAIL], ok(n, 2), ""))
+    fam.append(("xrff:many-empty-instances", xr + " 0", [XHEAD, XATTR2, XMID, (XINST, 2), (b"<instance></instance>\n<instance/>", n),
+                                                         XTAIL], ok(2, 2), ""))
+    fam.append(("xrff:short-instances", xr + " 0", [XHEAD, XATTR2, XMID, (XINST, 2), (b"<instance><value>1</value></instance>\n", n),
+                                                    XTAIL], ok(2, 2), ""))
+    fam.append(("xrff:filter-rejected-run", xr + " p39", [XHEAD, XATTR2, XMID, (XINST, 2),
+                                                         (b"<instance><value>9</value><value>2</value></instance>\n", n), XTAIL],
+                ok(2, 2), ""))
+    fam.append(("xrff:many-attributes", xr + " 0", [XHEAD, (b'<attribute name="a" type="numeric"/>\n', m), XMID,
+                                                    b"<instance>", (b"<value>1</value>", m), b"</instance>\n",
+                                                    b"<instance>", (b"<value>2</value>", m), b"</instance>\n", XTAIL],
+                ok(2, m), ""))
+    fam.append(("xrff:many-values-in-instance", xr + " 0", [XHEAD, XATTR2, XMID, (XINST, 2), b"<instance>", (b"<value>1</value>", n),
+                                                            b"</instance>\n", XTAIL], ok(2, 2), ""))
+    fam.append(("xrff:many-labels", xr + " 0", [XHEAD, b'<attribute name="c" type="nominal">', (b"<label>l</label>", n),
+                                                b"</attribute>\n", b'<attribute class="yes" name="y" type="numeric"/>\n', XMID,
+                                                b"<instance><value>l</value><value>2</value></instance>\n" * 2, XTAIL], ok(2, 2), ""))
+    fam.append(("xrff:many-class-attributes", xr + " 0", [XHEAD, (b'<attribute class="yes" name="y" type="numeric"/>\n', n), XMID,
+                                                          XTAIL], {"class": "exc"}, ""))
+    fam.append(("xrff:long-value", xr + " 0", [XHEAD, b'<attribute name="a" type="string"/>\n<attribute class="yes" name="y" '
+                                               b'type="numeric"/>\n', XMID, b"<instance><value>", (b"ab", 20 * n),
+                                               b"</value><value>2</value></instance>\n", XINST.replace(b">1<", b">z<"), XTAIL],
+                ok(2, 2), ""))
+    fam.append(("xrff:entities-run", xr + " 0", [XHEAD, b'<attribute name="a" type="string"/>\n<attribute class="yes" name="y" '
+                                                 b'type="numeric"/>\n', XMID, b"<instance><value>",
+                                                 (rng.choice([b"&amp;", b"&lt;", b"&#65;", b"&#x41;", b"&quot;"]), n),
+                                                 b"</value><value>2</value></instance>\n", XINST.replace(b">1<", b">z<"), XTAIL],
+                ok(2, 2), ""))
+    fam.append(("xrff:cdata-long", xr + " 0", [XHEAD, b'<attribute name="a" type="string"/>\n<attribute class="yes" name="y" '
+                                               b'type="numeric"/>\n', XMID, b"<instance><value><![CDATA[", (b"<&>", 4 * n),
+                                               b"]]></value><value>2</value></instance>\n", XINST.replace(b">1<", b">z<"), XTAIL],
+                ok(2, 2), ""))
+    fam.append(("xrff:comment-long", xr + " 0", [XHEAD, XATTR2, b"<!--", (b"- ", 4 * n), b"-->", XMID, (XINST, 2), XTAIL], ok(2, 2), ""))
+    fam.append(("xrff:many-xml-attributes", xr + " 0", [XHEAD, b'<attribute name="a" type="numeric" ', (b'z="1" ', min(n, 4000)), b"/>\n",
+                                                        b'<attribute class="yes" name="y" type="numeric"/>\n', XMID, (XINST, 2), XTAIL],
+                None, ""))
+    fam.append(("xrff:bom-and-blank-run", xr + " 0", [b"\xef\xbb\xbf", XHEAD, XATTR2, (b" \n", n), XMID, (XINST, 2), XTAIL], ok(2, 2), ""))
+    depth = min(n // 64 + 10, 90)      # inside tinyxml2's limit (100 nested elements)
+    fam.append(("xrff:deep-nesting-inside-limit", xr + " 0", [XHEAD, XATTR2, XMID, (XINST, 2), b"<instance><value>1",
+                                                              (b"<v>", depth), (b"</v>", depth), b"</value><value>2</value></instance>\n",
+                                                              XTAIL], None, "bounded-depth"))
+    fam.append(("xrff:deep-nesting-beyond-limit", xr + " 0", [XHEAD, XATTR2, XMID, (b"<v>", n), (b"</v>", n), XTAIL],
+                {"class": "exc"}, "bounded-depth"))
+    fam.append(("xrff:unclosed-run", xr + " 0", [XHEAD, XATTR2, XMID, (b"<instance>", n)], {"class": "exc"}, "bounded-depth"))
+    fam.append(("xrff:siblings-unclosed-values", xr + " 0", [XHEAD, XATTR2, XMID, b"<instance>", (b"<value/>", n)], {"class": "exc"}, ""))
+    return [(nm, req, recipe(*parts), exp, fl) for nm, req, parts, exp, fl in fam]
+
+
+def scale_tokens(a):
+    d = {}
+    for w in a.split():
+        k, eq, v = w.partition("=")
+        if eq:
+            d[k] = v
+    return d
+
+
+def run_scale(chk, exe, rng, quick, only=None):
+    """The resource-scaling stream.  Every family is read at size n and 4n on a 256 kB stack under a CPU
+    watchdog.  Violations (own oracle, concrete input = the request line): the stack is exhausted; the
+    watchdog fires; any other fault; the high-water mark of the stack grows with n; the outcome is not
+    the expected one.  Returns the number of requests."""
+    sizes = [(1500, 6000)] if quick else [(1500, 6000), (12000, 48000)]
+    reqs = []
+    if only is not None:
+        reqs.append(("replay", only, None, "", None))
+    else:
+        for n1, n2 in sizes:
+            for (nm, req, rc1, exp1, fl), (_, _, rc2, exp2, _) in zip(scale_families(C.SplitMix(chk.seed + 77), n1),
+                                                                      scale_families(C.SplitMix(chk.seed + 77), n2)):
+                reqs.append((nm, req + " " + rc1, exp1, fl, len(reqs) + 1))
+                reqs.append((nm, req + " " + rc2, exp2, fl, None))
+    env = {"ASAN_OPTIONS": C.SAN_ENV["ASAN_OPTIONS"] + ":hard_rss_limit_mb=6000"}
+    ans = []
+    for at in range(0, len(reqs), 16):          # in batches: a tree on which everything hangs must not take hours
+        part, _ = C.run_lines(exe, [r[1] for r in reqs[at:at + 16]], env=env, timeout=3600)
+        ans += part
+        if sum(1 for a in ans if a.startswith("timeout")) >= 3:
+            chk.notes.append("scaling stream stopped after 3 watchdog timeouts (%d of %d requests run)" % (len(ans), len(reqs)))
+            reqs = reqs[:len(ans)]
+            break
+    growth = {}
+    for i, (nm, ln, exp, fl, pair) in enumerate(reqs):
+        a = ans[i] if i < len(ans) else "skipped"
+        tk = scale_tokens(a)
+        fam = nm.split(":")[0]
+        chk.seen(ln, nontrivial=True)
+        chk.count("scale:" + nm)
+        cls = a.split()[0] if a else "?"
+        chk.count("scale-outcome:" + (" ".join(a.split()[:2]) if cls in ("exc", "fault", "timeout") else cls))
+        rep = {"kind": "scale", "line": ln, "cpp": a[:600], "family": nm, "stack_kB": STACK_KB, "cpu_limit_s": CPU_S,
+               "input_bytes": tk.get("in"), "note": "recipe = `+`-joined <hexbytes>*<count>; the default stack is 8 MiB = "
+               "%d x the stack of this run" % (8192 // STACK_KB)}
+        if a.startswith("fault stack"):
+            if "confirmed" not in growth:       # once per run: the same shape, 32 x larger, on the default 8 MiB stack
+                toks = ln.split()
+                toks[2] = "8192"
+                toks[-1] = "+".join(("%s*%d" % (it.split("*")[0], int(it.split("*")[1]) * (8192 // STACK_KB))
+                                     if "*" in it and int(it.split("*")[1]) >= 500 else it) for it in toks[-1].split("+"))
+                big, _ = C.run_lines(exe, [" ".join(toks)], env=env, timeout=3600)
+                growth["confirmed"] = 0
+                rep["default_stack_8MiB"] = {"line": " ".join(toks), "cpp": (big[0] if big else "")[:300]}
+            chk.violation("reading exhausts a %d kB stack (stack depth grows with the input; neither a dataframe nor an "
+                          "exception): %s -> %s" % (STACK_KB, nm, a[:120]), rep,
+                          tags={"kind": "scale", "site": "stack", "family": nm})
+            continue
+        if a.startswith("timeout"):
+            chk.violation("reading does not terminate within the CPU watchdog (%s): %s" % (a, nm), rep,
+                          tags={"kind": "scale", "site": "timeout", "family": nm})
+            continue
+        if cls not in ("ok", "exc"):
+            chk.violation("reading a scaled input ends in %s: %s" % (a[:160], nm), rep,
+                          tags={"kind": "scale", "site": "fault", "family": nm})
+            continue
+        if cls == "ok" and "valid" in tk and (tk.get("valid") != "1" or tk.get("eqin") != "1"):
+            chk.violation("reading returns normally but the dataframe fails its consistency check: " + a[:120], rep,
+                          tags={"kind": "scale", "site": "invalid-result", "family": nm})
+            continue
+        if exp is not None:
+            good = (cls == "exc") if exp.get("class") == "exc" else \
+                (cls == "ok" and all(tk.get(k) == str(v) for k, v in exp.items()))
+            if not good:
+                chk.violation("a scaled input is not read as expected (%s): expected %s, got %s" % (nm, exp, a[:160]),
+                              rep, tags={"kind": "scale", "site": "unexpected", "family": nm})
+                continue
+        if pair is not None and i + 1 < len(reqs):
+            b = ans[i + 1] if i + 1 < len(ans) else ""
+            tb = scale_tokens(b)
+            if "stack" in tk and "stack" in tb:
+                g = int(tb["stack"]) - int(tk["stack"])
+                growth[nm] = max(growth.get(nm, 0), g)
+                if g > STACK_GROWTH_TOL and "bounded-depth" not in fl:
+                    rep2 = dict(rep, line=reqs[i + 1][1], cpp=b[:600], smaller={"line": ln, "cpp": a[:300]})
+                    chk.violation("the stack depth of reading grows with the input (%s: high-water %s bytes at size n, "
+                                  "%s at 4n): a larger input of the same shape exhausts the stack" % (nm, tk["stack"], tb["stack"]),
+                                  rep2, tags={"kind": "scale", "site": "stack-growth", "family": nm})
+            # CPU growth exponent (evidence only: quadratic work terminates)
+            try:
+                t1, t2 = int(tk["cpu_ms"]), int(tb["cpu_ms"])
+                s1, s2 = int(tk["in"]), int(tb["in"])
+                if t1 >= 20 and s2 > s1:
+                    import math
+                    chk.cov.setdefault("scale_cpu_exponent", {})[nm] = round(math.log(max(t2, 1) / t1) / math.log(s2 / s1), 2)
+            except (KeyError, ValueError):
+                pass
+    growth.pop("confirmed", None)
+    chk.cov["scale_stack_growth_bytes"] = {k: v for k, v in sorted(growth.items()) if v > 256}
+    chk.cov["scale_stack_kB"] = STACK_KB
+    return len(reqs)
+
+
 def site_of(stderr_tail):
     """Where the sanitizer fired (function of vita nearest to the top of the stack)."""
     for fn in ("columns_info::build", "dataframe::read_csv", "dataframe::read_xrff", "dataframe::to_example",
@@ -171,10 +443,14 @@ def run(chk, replay=None):
 
     cases = []      # (kind, cpp line, model line or None, what)
     rp = json.load(open(replay)).get("replay", {}) if replay else {}
-    if "line" in rp:          # a concrete failing input: run exactly this request again
+    scale_exe = C.build_harness("c10_scale", "asan")
+    if rp.get("kind") == "scale":          # a resource-scaling request
+        run_scale(chk, scale_exe, rng, quick, only=rp["line"])
+    elif "line" in rp:          # a concrete failing input: run exactly this request again
         k = rp.get("kind", rp["line"].split()[0])
         cases.append((k, rp["line"], None if k == "xrff" else rp["line"], "replay"))
     else:
+        run_scale(chk, scale_exe, rng, quick)
         cdir = os.path.join(C.ROOT, "corpus", "C10")
         if os.path.isdir(cdir):
             for f in sorted(os.listdir(cdir)):
